@@ -71,6 +71,12 @@ def run_scenario(chk, sc, cfgseed, ndims):
     cfg_ = gamma.Config.draw(rng, ndims=ndims, payload="tame")
     cfg_.time = rng.choice([0.0, -3.25, 1.3924182125972017e-08, 1e+300, float("inf"), 123456789.125])
     fields = list(sc["fields"])
+    # concrete spellings of the unknown names: as they are, or so that two entries of the listing are EQUAL UP TO CASE -- the other
+    # unknown name in capitals ("foo" next to "FOO"), a coordinate field "y" / "x" next to the species class "Y(..)": distinct fields
+    if cfgseed % 3 == 1 and "foo" in fields and "bar" in fields:
+        fields = ["FOO" if f == "bar" else f for f in fields]
+    elif cfgseed % 3 == 2 and "foo" in fields and any(f.startswith("Y(") for f in fields):
+        fields = ["y" if f == "foo" else f for f in fields]
     nlev = rng.randint(1, 3)
     classes = [[rng.choice([1, 2]) for _ in range(rng.randint(1, 3))] for _ in range(nlev)]
     lays = [rand_layout(rng, len(c)) for c in classes]
